@@ -8,7 +8,7 @@ from typing import Any, Iterator
 from jinja2 import nodes
 
 from .. import tplq
-from ..astutil import Locals, call_name, constructs_error, error_names, norm, returns_error, short, where
+from ..astutil import Locals, call_name, calls_in, constructs_error, error_names, norm, returns_error, short, where
 from ..cfg import CFG, ENTRY, own_exprs, walk_own
 from ..core import PKG, Report
 from ..jinja_interp import expr_text
@@ -316,6 +316,7 @@ def run(rep: Report, ctx: Any) -> str:
     # shared between endpoints) and every template keys the three states on property.required / property.default: changing
     # either in place changes another owner's declaration.  A new value needs a new object (evolve).
     n_stores = 0
+    doc_required_stores: list[tuple[Any, ast.AST]] = []
     for f in ix.all_functions:
         for n in ast.walk(f.node):
             attr = obj = None
@@ -330,6 +331,8 @@ def run(rep: Report, ctx: Any) -> str:
             if attr in ("required", "default") and not (obj == "self" and f.name in ("__init__", "__attrs_post_init__")):
                 # stores into the pydantic document model (schema classes) are normalisation of the input, not of a property
                 if f.cls is not None and not any(k.name == "PropertyProtocol" for k in ix.mro(f.cls)) and obj == "self":
+                    if attr == "required":
+                        doc_required_stores.append((f, n))   # the document's own `required`: R10.11
                     continue
                 # an object this function has just constructed is not shared with anybody yet
                 made = Locals(f.node).defs.get(obj or "", [])
@@ -377,6 +380,12 @@ def run(rep: Report, ctx: Any) -> str:
 
     # ---- R10.10 requiredness survives a merge ------------------------------------------------------------------------------------
     _merge_keeps_required(rep, ix)
+
+    # ---- R10.11 the document's `required` list is handed on whole ---------------------------------------------------------------
+    _required_list_whole(rep, ix, doc_required_stores)
+
+    # ---- R10.12 two requirednesses are combined by allOf only -------------------------------------------------------------------
+    _combination_is_allof_only(rep, ix)
 
     # ---- R10.9 the UNSET source passes through the decoder ------------------------------------------------------------------------
     # from_dict pops an optional key with the UNSET default (R10.3) and hands `<python_name>` to cls(...).  What lies between is the
@@ -675,6 +684,187 @@ def _merge_keeps_required(rep: Report, ix: Any) -> None:
         rep.check(ok, "R10.10", f"{short(g)}::required-or", "the function that combines two declarations does not build the result with "
                   "`required=<one>.required or <other>.required`", where(g, g.node), lhs=[norm(v)[:60] for v in ors][:2],
                   rhs="required=a.required or b.required")
+
+
+_EMPTY = (ast.List, ast.Tuple, ast.Set, ast.Dict)
+
+
+def _required_list_read(e: ast.AST) -> bool:
+    """`<x>.required`, `<x>.required or []`, or a set / list / tuple / sorted / frozenset made of one: the names a document object
+    lists as required (a property's own `required` is a bool and is never iterated)"""
+    if isinstance(e, ast.BoolOp) and isinstance(e.op, ast.Or) and len(e.values) == 2 and isinstance(e.values[1], (*_EMPTY, ast.Call)) and \
+            not getattr(e.values[1], "elts", None) and not getattr(e.values[1], "args", None):
+        e = e.values[0]
+    if isinstance(e, ast.Attribute) and e.attr == "required" and not (isinstance(e.value, ast.Name) and e.value.id == "cls"):
+        return True
+    if isinstance(e, ast.Call) and norm(e.func) in ("set", "frozenset", "list", "tuple", "sorted") and len(e.args) == 1:
+        return _required_list_read(e.args[0])
+    if isinstance(e, ast.Starred):
+        return _required_list_read(e.value)
+    if isinstance(e, (ast.Set, ast.List, ast.Tuple)) and len(e.elts) == 1 and isinstance(e.elts[0], ast.Starred):
+        return _required_list_read(e.elts[0])
+    return False
+
+
+def _required_list_whole(rep: Report, ix: Any, stores: list[tuple[Any, ast.AST]]) -> None:
+    """Which properties are mandatory is said by the `required` lists of the document (of the schema itself and of every allOf member),
+    by name - also names of properties that another member declares.  Every name has to reach the place where a property's
+    `required` is decided: the list is not rewritten on the document object and nothing is taken out of it on the way."""
+    rep.rule("R10.11", "the names a document object lists under `required` reach the builders whole: the field is not rewritten in place "
+                       "(store, del, mutating call - also by a validator of the document class), and a collection made of it is never "
+                       "filtered (a comprehension / filter() / loop with a condition over it, set difference or intersection, "
+                       "remove / discard / pop / clear): a name dropped there - e.g. because the object does not declare the property "
+                       "itself - makes an inherited property optional")
+    n_reads = 0
+    bad: list[tuple[Any, ast.AST, str]] = [(f, n, "the field is rewritten in place") for f, n in stores]
+    lossy = {"remove", "discard", "pop", "clear", "difference", "difference_update", "intersection", "intersection_update",
+             "symmetric_difference", "symmetric_difference_update"}
+    for f in ix.all_functions:
+        if f.parent is not None:
+            continue   # closures are walked with the function that holds them
+        lc = Locals(f.node)
+        # locals that hold (a collection made of) a required list
+        held = {nm for nm, ds in lc.defs.items() if any(v is not None and k.startswith("assign") and _required_list_read(v) for k, _, v in ds)}
+
+        def is_rl(e: ast.AST) -> bool:
+            return _required_list_read(e) and not (isinstance(e, ast.Attribute)) or (isinstance(e, ast.Name) and e.id in held)
+
+        def iterated(e: ast.AST) -> bool:
+            """e in a position where it is iterated: the list itself counts here too"""
+            return is_rl(e) or (_required_list_read(e) and isinstance(e, (ast.Attribute, ast.BoolOp)))
+
+        for n in ast.walk(f.node):
+            if isinstance(n, (ast.ListComp, ast.SetComp, ast.GeneratorExp, ast.DictComp)):
+                for g in n.generators:
+                    if iterated(g.iter):
+                        n_reads += 1
+                        if g.ifs:
+                            bad.append((f, n, "a comprehension over it keeps only some names"))
+            elif isinstance(n, ast.Call):
+                fn = norm(n.func)
+                if fn in ("filter", "itertools.filterfalse", "filterfalse") and len(n.args) == 2 and iterated(n.args[1]):
+                    bad.append((f, n, "filter() over it keeps only some names"))
+                elif fn in ("set", "frozenset", "list", "tuple", "sorted") and len(n.args) == 1 and iterated(n.args[0]):
+                    n_reads += 1
+                elif isinstance(n.func, ast.Attribute):
+                    recv = n.func.value
+                    on_field = isinstance(recv, ast.Attribute) and recv.attr == "required"
+                    if n.func.attr in lossy and (is_rl(recv) or on_field):
+                        bad.append((f, n, f"`.{n.func.attr}(...)` takes names out of it"))
+                    elif on_field and n.func.attr in ("append", "extend", "insert", "sort", "reverse", "__delitem__", "__setitem__"):
+                        bad.append((f, n, "the field is changed in place"))
+                    elif n.func.attr in ("update", "union", "extend") and any(iterated(a) for a in n.args):
+                        n_reads += 1
+            elif isinstance(n, ast.Starred) and iterated(n.value):
+                n_reads += 1
+            elif isinstance(n, ast.BinOp) and isinstance(n.op, (ast.Sub, ast.BitAnd, ast.BitXor)) and (is_rl(n.left) or is_rl(n.right)):
+                bad.append((f, n, "a set difference / intersection takes names out of it"))
+            elif isinstance(n, ast.AugAssign) and isinstance(n.op, (ast.Sub, ast.BitAnd, ast.BitXor)) and (is_rl(n.target) or is_rl(n.value)):
+                bad.append((f, n, "a set difference / intersection takes names out of it"))
+            elif isinstance(n, ast.Delete) and any(isinstance(t, ast.Subscript) and isinstance(t.value, ast.Attribute) and t.value.attr == "required"
+                                                   or isinstance(t, ast.Attribute) and t.attr == "required" for t in n.targets):
+                bad.append((f, n, "the field is changed in place"))
+            elif isinstance(n, (ast.For, ast.AsyncFor)) and iterated(n.iter) and isinstance(n.target, ast.Name):
+                n_reads += 1
+                v = n.target.id
+                skips = any(isinstance(x, ast.Continue) for x in ast.walk(n))
+                cond = any(isinstance(i_, ast.If) and any(isinstance(c, ast.Call) and isinstance(c.func, ast.Attribute) and
+                                                          c.func.attr in ("add", "append") and any(norm(a) == v for a in c.args)
+                                                          for b_ in (i_.body, i_.orelse) for st in b_ for c in ast.walk(st))
+                           for i_ in ast.walk(n))
+                if skips or cond:
+                    bad.append((f, n, "a loop over it hands on only some names"))
+    seen: set[str] = set()
+    for f, n, why in bad:
+        k = f"{short(f)}::required-list-not-whole"
+        if k in seen:
+            continue
+        seen.add(k)
+        rep.fail("R10.11", k, f"the document's `required` list does not reach the builders whole: {why} ({norm(n)[:70]}); a required name "
+                 "that is dropped (one the object does not declare itself, but another allOf member does) makes that property optional",
+                 where(f, n), lhs=norm(n)[:80], rhs="set(<schema>.required or []) handed on as it is")
+    rep.floor("required_list_reads", n_reads, 1)
+    if not bad:
+        rep.ok("R10.11", "package::required-lists-whole", n_reads, "no rewrite, no filter")
+
+
+def _combination_is_allof_only(rep: Report, ix: Any) -> None:
+    """`required` is sticky and a missing default is inherited when one property is declared twice in an allOf composition - and nowhere
+    else: an operation's parameter replaces the path item's, a referenced schema's property is the referenced one.  The functions
+    that compute a `required` from two declarations' (`a.required or b.required`), and everything that reaches them, therefore
+    belong to the merge machinery or to the allOf composition."""
+    from ..astutil import region
+
+    rep.rule("R10.12", "the requiredness of two declarations is combined (`required=<a>.required or <b>.required` and the like) only for "
+                       "allOf: every function from which such a combination is reached lies in the module of merge_properties, or "
+                       "is a private helper all of whose callers qualify, or is (with its private helpers and closures) the "
+                       "function that walks `<schema>.allOf`; anywhere else - parameters of an operation over those of its path item, "
+                       "a reference over its target - one declaration replaces the other and keeps its own `required`")
+    mp = ix.func("merge_properties.merge_properties")
+    home = mp.module
+
+    def two_required(v: ast.AST) -> bool:
+        reads = {norm(x.value) for x in ast.walk(v) if isinstance(x, ast.Attribute) and x.attr == "required"}
+        combining = isinstance(v, (ast.BoolOp, ast.BinOp)) or (isinstance(v, ast.Call) and norm(v.func) in ("any", "all", "max", "min", "bool"))
+        return combining and len(reads) >= 2
+
+    def outer(g: Any) -> Any:
+        while g.parent is not None:
+            g = g.parent
+        return g
+
+    combiners = []
+    for g in ix.all_functions:
+        for c in ast.walk(g.node):
+            vals = [kw.value for kw in c.keywords if kw.arg == "required"] if isinstance(c, ast.Call) else \
+                [c.value] if isinstance(c, ast.Assign) and any(isinstance(t, ast.Attribute) and t.attr == "required" for t in c.targets) else []
+            if any(two_required(v) for v in vals) and outer(g) not in combiners:
+                combiners.append(outer(g))
+    rep.floor("requiredness_combiners", len(combiners), 1)
+    by_name: dict[str, list[Any]] = {}
+    for g in ix.all_functions:
+        by_name.setdefault(g.name, []).append(g)
+
+    def callers(h: Any) -> list[Any]:
+        out = []
+        for g in ix.all_functions:
+            if g.parent is not None:
+                continue
+            if outer(g) is not h and any(call_name(c).rsplit(".", 1)[-1] == h.name for c in calls_in(g.node)) and g not in out:
+                out.append(g)
+        return out
+
+    def walks_allof(g: Any) -> bool:
+        return any(isinstance(x, ast.Attribute) and x.attr == "allOf" for h in region(ix, g) for x in ast.walk(h.node))
+
+    bad: list[tuple[Any, Any]] = []
+    seen = {g.qual for g in combiners}
+    todo = [(g, g) for g in combiners]
+    n_checked = 0
+    while todo:
+        g, via = todo.pop()
+        n_checked += 1
+        if g.module is home:
+            nxt = callers(g)
+        elif walks_allof(g):
+            continue
+        elif g.name.startswith("_") and not g.name.startswith("__") and callers(g):
+            nxt = callers(g)
+        else:
+            bad.append((g, via))
+            continue
+        for c in nxt:
+            if c.qual not in seen:
+                seen.add(c.qual)
+                todo.append((c, g))
+    for g, via in bad:
+        rep.fail("R10.12", f"{short(g)}::combines-requiredness-outside-allOf",
+                 f"{short(g)} reaches the combination of two declarations' `required` (through {short(via)}) but is neither part of the "
+                 "merge machinery nor the allOf composition: what it builds is required as soon as either declaration is - a "
+                 "parameter or property re-declared as optional stays mandatory (and inherits the other declaration's default)",
+                 where(g, g.node), lhs=short(via), rhs="one declaration replaces the other")
+    if not bad:
+        rep.ok("R10.12", "package::combination-allOf-only", n_checked, "only the merge module and the allOf walk reach a combination")
 
 
 def _py_blocks(text: str) -> Iterator[ast.Module]:
